@@ -169,19 +169,40 @@ template <class G> void runAny(size_t n0, const std::vector<std::string> &ops) {
         Segs o = observe(g); o.insert(o.begin(), Obs{r}); o.push_back(Obs{}); emit("I", o);
     }
 }
+// ---- C09: edge-list constructors of the multigraph and weighted classes ----
+template <class G, class V> Segs elRun(const std::vector<Triple> &ts, V (*mkv)(long)) {
+    typedef LabeledEdge<V> E;
+    std::vector<E> v; for (auto &t : ts) v.push_back(E(t.i, t.j, mkv(t.l)));
+    G gv(v); std::list<E> l(v.begin(), v.end()); std::deque<E> d(v.begin(), v.end()); std::forward_list<E> f(v.begin(), v.end());
+    G gl(l), gd(d), gf(f);
+    Segs o = observe(gv);
+    if (!(gv == gl && gl == gd && gd == gf && gf == gv) || observe(gl) != o || observe(gd) != o || observe(gf) != o) o.push_back(Obs{-7});
+    return o;
+}
+static EdgeMultiplicity mkMult(long c) { return (EdgeMultiplicity)c; }
+static EdgeWeight mkWeight(long c) { return c / 4.0; }
+
 int main() {
     std::string line;
     while (std::getline(std::cin, line)) {
         auto c = line.find(':'); if (c == std::string::npos) continue;
         std::istringstream hd(line.substr(0, c)); std::string cls, lk; size_t n; hd >> cls;
-        bool eq = cls == "EQ"; if (eq) hd >> cls;
-        hd >> lk >> n;
+        bool eq = cls == "EQ", el = cls == "EL"; if (eq || el) hd >> cls;
+        hd >> lk; if (!el) hd >> n;
         fputs(("CASE " + line + "\n").c_str(), stdout); fflush(stdout);
         if (eq) {
             std::string body = line.substr(c + 1); auto bar = body.find('|');
             auto a = splitOps(body.substr(0, bar)), b = splitOps(bar == std::string::npos ? "" : body.substr(bar + 1));
             if (cls == "DM") eqCase<DirectedMultigraph>(n, a, b); else if (cls == "UM") eqCase<UndirectedMultigraph>(n, a, b);
             else if (cls == "DW") eqCase<DirectedWeightedGraph>(n, a, b); else if (cls == "UW") eqCase<UndirectedWeightedGraph>(n, a, b);
+            continue;
+        }
+        if (el) {
+            auto ts = parseTriples(line.substr(c + 1));
+            if (cls == "DM") emitGuarded([&] { return elRun<DirectedMultigraph>(ts, &mkMult); });
+            else if (cls == "UM") emitGuarded([&] { return elRun<UndirectedMultigraph>(ts, &mkMult); });
+            else if (cls == "DW") emitGuarded([&] { return elRun<DirectedWeightedGraph>(ts, &mkWeight); });
+            else if (cls == "UW") emitGuarded([&] { return elRun<UndirectedWeightedGraph>(ts, &mkWeight); });
             continue;
         }
         auto ops = splitOps(line.substr(c + 1));
